@@ -260,7 +260,7 @@ def run_scenario(chk, sc, cfgseed, recipe, flavour="sched", workers=None, pressu
 def run_histories(chk, scenarios):
     """ChefCache.tla: histories of cooks in ONE process with the real, cached pathos pool."""
     r = chk.add_tlc(tlc.run("ChefCache", {"INIT": "Init", "NEXT": "Next",
-                                          "CONSTANTS": {"MaxCooks": 2 if chk.tier == "quick" else 3, "ClearOnRebuild": "TRUE"},
+                                          "CONSTANTS": {"MaxCooks": 2 if chk.tier == "quick" else 3, "ClearPolicy": '"always"'},
                                           "INVARIANTS": ["EveryCookUsesItsOwnState", "Emit"]}, workers=4, timeout=600),
                     "process-level pool cache histories")
     if r.violated:
@@ -270,18 +270,22 @@ def run_histories(chk, scenarios):
             if [L["cells"] for L in s["levels"]] == cells and s["nnew"] == 1 and s["kept"] == [] and len(set(s["levels"][0]["file"])) == len(cells[0]):
                 return s
         raise core.MachineryError("no C11 scenario with cells %r" % (cells,))
-    inputs = {"P": (pick([[2]]), 1.5), "Q": (pick([[2, 3]]), 0.8)}
-    hs = [h["hist"] for h in r.emitted if any(c["parallel"] for c in h["hist"])]
+    # P's box shape is one of Q's two; the thermodynamic setting (pressure) is a dimension of its own
+    inputs = {"P": pick([[2]]), "Q": pick([[2, 3]])}
+    pressures = {1: 1.5, 2: 0.8}
+    hs = [h["hist"] for h in r.emitted if any(c["parallel"] for c in h["hist"][1:])]
     hs.sort(key=core.jdump)
     if chk.tier == "quick":
-        hs = hs[::2]
+        # the histories in which a cached pool could serve a later cook: every one whose first two cooks are parallel,
+        # and every third of the others
+        hs = [h for k, h in enumerate(hs) if (h[0]["parallel"] and h[1]["parallel"]) or k % 3 == 0]
     for h in hs:
         for k, c in enumerate(h):
-            sc, pres = inputs[c["input"]]
+            sc, pres = inputs[c["input"]], pressures[c["param"]]
             v = run_scenario(chk, sc, 1000 + k, "HRR", flavour="real", pressure=pres, serial=not c["parallel"])
             if v:
                 break
-        sig = util.sig_str("history", [[c["input"], "parallel" if c["parallel"] else "serial"] for c in h])
+        sig = util.sig_str("history", [[c["input"], c["param"], "parallel" if c["parallel"] else "serial"] for c in h])
         chk.executed(sig, True, sample={"history": h})
         chk.traces += 1
         if v:
@@ -338,3 +342,6 @@ def run(chk, replay):
         if v:
             chk.violation(sigs, v, {"sc": sc, "cfgseed": cfgseed, "recipe": recipe, "sigs": sigs})
     run_histories(chk, scenarios)
+    # code -> spec: cooks (user recipe, serial and parallel) recorded on large generated plotfiles (Chef!CookSpecG in OpTrace.tla)
+    from harness import optrace
+    optrace.phase(chk, ["cook", "cook", "strain"], "chef on large inputs", 40, 400, twod=False, nops=3)
